@@ -390,10 +390,11 @@ namespace vh
    // ------------------------------------------------------------------ inline actions for apply<> / apply0<> / if_apply<>
    inline bool ipred( std::size_t b, std::size_t e ) { return ( ( unsigned( b ) * 3u + unsigned( e ) * 5u ) % 3u ) != 0; }
    inline bool ithrow( std::size_t b, std::size_t e ) { return ( ( unsigned( b ) + unsigned( e ) ) % 4u ) == 3u; }
+   inline bool ipred3( std::size_t b, std::size_t e ) { return ( ( unsigned( b ) + unsigned( e ) ) % 2u ) != 0; }   // ia< 3 >: vetoes every even-length match at an even offset
    template< int K > struct ia
    {
       template< typename AI, typename... S >
-      static auto apply( const AI& in, S&&... ) -> std::conditional_t< K == 1, bool, void >
+      static auto apply( const AI& in, S&&... ) -> std::conditional_t< ( K == 1 || K == 3 ), bool, void >
       {
          lg() += "I" + std::to_string( K );
          lpos( in.position() );
@@ -401,6 +402,9 @@ namespace vh
          lg() += ';';
          if constexpr( K == 1 ) {
             return ipred( in.position().byte, in.input().position().byte );
+         }
+         if constexpr( K == 3 ) {
+            return ipred3( in.position().byte, in.input().position().byte );
          }
          if constexpr( K == 2 ) {
             if( ithrow( in.position().byte, in.input().position().byte ) ) {
